@@ -21,6 +21,9 @@ Per system:
                          transition is enabled (no deadlock)
   *_terminates_clean     in a final state every internal goroutine is at its end (nothing left running,
                          WaitGroup counter 0)
+  *_terminates           every schedule is finite: a measure strictly decreases at every step, so a run has
+                         at most `measure init` steps; with *_progress every maximal run ends in a final
+                         state (no deadlock, no livelock, nothing left running)
 
 Ties: T4 `skeleton_facts`; T5 trace validation + race stress (vlib/props/c19.py).  Partial: data-race
 freedom at memory level and the faithfulness of the channel semantics of K/Lts to the Go runtime are
@@ -84,6 +87,15 @@ theorem fmap_terminates_clean (c : FmapChan.Cfg) (s : FmapChan.State) (hr : (Fma
     (hf : FmapChan.final s) : s.pc = .done := by
   have hi := FmapChan.inv_reachable c s hr
   exact hi.outClosed.mp (hi.seenC hf).1
+
+/-- termination under every schedule: each step strictly decreases `FmapChan.measure`, so a run from
+the initial state has at most `measure init` steps; with `fmap_progress` every maximal run ends in a
+final state -/
+theorem fmap_terminates (c : FmapChan.Cfg) (tr : List FmapChan.Label) (s : FmapChan.State)
+    (h : (FmapChan.lts c).run (FmapChan.init c) tr = some s) :
+    tr.length + FmapChan.measure s ≤ FmapChan.measure (FmapChan.init c) :=
+  Lts.run_length_le (FmapChan.lts c) (fun _ => True) FmapChan.measure (fun _ _ _ _ _ => trivial)
+    (fun s l s' _ hs => FmapChan.measure_decreases c s s' l hs) tr _ s trivial h
 
 /-- a complete run: two items through unbuffered channels, f = (· + 1) -/
 example : ∃ s, (FmapChan.lts { items := [5, 7], cap := 0, f := (· + 1) }).run
@@ -159,6 +171,12 @@ theorem dup_terminates_clean (c : Dup.Cfg) (s : Dup.State) (hr : (Dup.lts c).Rea
     (hf : Dup.final s) : s.pc = .done := by
   have hi := Dup.inv_reachable c s hr
   exact hi.oc2.mp (hi.sc2 hf.2).1
+
+theorem dup_terminates (c : Dup.Cfg) (tr : List Dup.Label) (s : Dup.State)
+    (h : (Dup.lts c).run (Dup.init c) tr = some s) :
+    tr.length + Dup.measure s ≤ Dup.measure (Dup.init c) :=
+  Lts.run_length_le (Dup.lts c) (fun _ => True) Dup.measure (fun _ _ _ _ _ => trivial)
+    (fun s l s' _ hs => Dup.measure_decreases c s s' l hs) tr _ s trivial h
 
 example : ∃ s, (Dup.lts { items := [4, 9], cap := 1 }).run (Dup.init { items := [4, 9], cap := 1 })
       [.pSend, .dRecv, .dSend1, .pSend, .dSend2, .c2Recv, .dRecv, .c1Recv, .dSend1, .dSend2, .pClose,
@@ -245,6 +263,14 @@ theorem joinwg_terminates_clean (c : JoinWG.Cfg) (s : JoinWG.State) (hr : (JoinW
   rw [count_all_false _ c.n (fun i hin => by rw [hall i hin]; rfl), hpc] at hw
   simpa using hw
 
+/-- termination under every schedule (both forms): each step strictly decreases `JoinWG.measure` -/
+theorem joinwg_terminates (c : JoinWG.Cfg) (tr : List JoinWG.Label) (s : JoinWG.State)
+    (h : (JoinWG.lts c).run (JoinWG.init c) tr = some s) :
+    tr.length + JoinWG.measure c s ≤ JoinWG.measure c (JoinWG.init c) :=
+  Lts.run_length_le (JoinWG.lts c) (JoinWG.Inv c) (JoinWG.measure c)
+    (fun s l s' hi hs => JoinWG.inv_step c s s' l hi hs)
+    (fun s l s' hi hs => JoinWG.measure_decreases c s s' l hi hs) tr _ s (JoinWG.inv_init c) h
+
 /-- chan-of-chan form, two inner channels (one unbuffered, one buffered), a complete run in which the
 second channel's item overtakes the first's -/
 example : ∃ s, (JoinWG.lts { n := 2, items := fun i => if i = 0 then [10] else [20], cap := fun i => i,
@@ -321,6 +347,19 @@ theorem joinsel_terminates_clean (c : JoinSelect.Cfg) (s : JoinSelect.State)
   have hi := JoinSelect.inv_reachable c s hr
   exact hi.outCl.mp (hi.seenC hf)
 
+/-- termination under every schedule: each step strictly decreases `JoinSelect.measure` (the nil-ing of
+a closed input is what pays for going round the select loop again) -/
+theorem joinsel_terminates (c : JoinSelect.Cfg) (tr : List JoinSelect.Label) (s : JoinSelect.State)
+    (h : (JoinSelect.lts c).run (JoinSelect.init c) tr = some s) :
+    tr.length + JoinSelect.measure c s ≤ JoinSelect.measure c (JoinSelect.init c) :=
+  Lts.run_length_le (JoinSelect.lts c) (JoinSelect.NilLive c) (JoinSelect.measure c)
+    (fun s l s' hi hs => JoinSelect.nilLive_step c s s' l hi hs)
+    (fun s l s' hi hs => JoinSelect.measure_decreases c s s' l hi hs) tr _ s
+    (by
+      intro i hpc
+      simp only [JoinSelect.init] at hpc
+      rcases JoinSelect.loopHead_cases c (fun _ => true) with h' | h' <;> rw [h'.1] at hpc <;> cases hpc) h
+
 example : ∃ s, (JoinSelect.lts { n := 2, items := fun i => if i = 0 then [1, 2] else [7], cap := fun _ => 1 }).run
       (JoinSelect.init { n := 2, items := fun i => if i = 0 then [1, 2] else [7], cap := fun _ => 1 })
       [.pSend 0, .pSend 1, .sRecv 1, .cTake, .pClose 1, .sRecv 0, .cTake, .sRecv 1, .sNil, .pSend 0,
@@ -376,6 +415,14 @@ theorem pipeline_terminates_clean (c : Pipeline.Cfg) (s : Pipeline.State) (hr : 
   have hj := joinwg_terminates_clean (Pipeline.jcfg c) s.j (Pipeline.proj_reachable c s hr) hf
   have hc := pipeline_close_after_drained c s hr
   exact ⟨(hc.1 (hc.2 hf)).1, hj.1, hj.2.1, hj.2.2.1⟩
+
+/-- termination under every schedule: each step strictly decreases `Pipeline.measure` -/
+theorem pipeline_terminates (c : Pipeline.Cfg) (tr : List Pipeline.Label) (s : Pipeline.State)
+    (h : (Pipeline.lts c).run (Pipeline.init c) tr = some s) :
+    tr.length + Pipeline.measure c s ≤ Pipeline.measure c (Pipeline.init c) :=
+  Lts.run_length_le (Pipeline.lts c) (Pipeline.PInv c) (Pipeline.measure c)
+    (fun s l s' hi hs => Pipeline.pinv_step c s s' l hi hs)
+    (fun s l s' hi hs => Pipeline.measure_decreases c s s' l hi hs) tr _ s (Pipeline.pinv_init c) h
 
 example : ∃ s, (Pipeline.lts { n := 2, bcap := 1, items := fun i => [10 * i + 1], cap := fun _ => 0 }).run
       (Pipeline.init { n := 2, bcap := 1, items := fun i => [10 * i + 1], cap := fun _ => 0 })
